@@ -15,6 +15,8 @@ ASSUMPTIONS = ["planar metric, InMemMap; graphs <= 12 nodes, traces <= 12 points
                "candidate are excluded from that clause only, and counted"]
 TOLERANCES = {"threshold_band": hmmref.BAND}
 BUDGET = {"quick": {"shards": 8, "examples": 700}, "thorough": {"shards": 16, "examples": 12000}}
+FUZZ = {"thorough": {"runs": 15000, "seed_inputs": 16, "max_len": 4096,
+                     "include": ("leuvenmapmatching.matcher", "leuvenmapmatching.util", "leuvenmapmatching.map")}}
 
 
 def check_case(case, ctx):
